@@ -307,6 +307,13 @@ def _filter_table(ctx: Ctx, f: Func, lp: ast.For, kind: str, N: Dict[str, str]) 
     def add(node: ast.AST, flag: str, need_rec: Optional[bool] = None) -> None:
         vs, rest = _verdicts_of(ctx, f, node, resv)
         rec_conds = [(pol) for e, pol in rest if _is_rec(e, N['rec'], lv)]
+        if not rec_conds:
+            # `lv._children and rec(lv)` as one (negated) atom: the walk of a childless node is vacuous, so the guard
+            # does not change the walker's answer
+            for e, pol in rest:
+                if isinstance(e, ast.BoolOp) and isinstance(e.op, ast.And) and any(_is_rec(v, N['rec'], lv) for v in e.values) and all(
+                        _is_rec(v, N['rec'], lv) or norm(v) in (f"{lv}._children", f"{lv}.children", f"{lv}.has_children()") for v in e.values):
+                    rec_conds.append(pol)
         if need_rec is not None:
             if not rec_conds or rec_conds[0] is not need_rec:
                 return
